@@ -406,6 +406,9 @@ def originField (length : Int) (depth : Nat) : P Bytes := do
   let _ ← fieldName (bs "ORIGIN") depth
   let _ ← line
   clear
+  -- the nine column index of the layout numbers at most 1000000020 residues (repair after the
+  -- finding `validateOrigin_wide_index_panics`)
+  if length > 1000000020 then fail
   let n := Origin.toOriginLength length
   -- `state.Request(n)` with n < 0 "succeeds" and `state.Buffer()` slices with end < start
   if n < 0 then panic
